@@ -14,7 +14,7 @@ package main
 // Driver lines:
 //   c19ord <lang> <opts|-> <root> <graph>   generation order of the files (the
 //        real one is read from the compiler's -v log) vs the model's traversal
-//   c19det <progseed> <cfg> <R> <keep>      replayable determinism run of one
+//   c19det s<progseed> <cfg> <R> <keep>     replayable determinism run of one
 //        (program, target, options); <keep> = kept item indices (shrinkable)
 //   c19site <site> <pattern>                census tie (see census19.go)
 
@@ -1043,7 +1043,7 @@ func c19ParseKeep(s string, n int) []bool {
 // evaluates the property.  inproc adds in-process repetitions.
 func c19Task(p *c19Prog, keep []bool, cfg int, R int, inproc bool) c19Result {
 	files, _ := p.render(keep)
-	return c19TaskFiles(p, files, cfg, R, inproc, fmt.Sprintf("c19det %d %d %d %s", p.seed, cfg, R, c19KeepString(keep)))
+	return c19TaskFiles(p, files, cfg, R, inproc, fmt.Sprintf("c19det s%d %d %d %s", p.seed, cfg, R, c19KeepString(keep)))
 }
 
 func c19ReadTree(dir string) map[string]string {
@@ -1382,7 +1382,7 @@ func init() {
 		if len(args) != 4 {
 			return "bad-op", true
 		}
-		seed, e1 := strconv.ParseUint(args[0], 10, 64)
+		seed, e1 := strconv.ParseUint(strings.TrimPrefix(args[0], "s"), 10, 64)
 		cfg, e2 := strconv.Atoi(args[1])
 		R, e3 := strconv.Atoi(args[2])
 		if e1 != nil || e2 != nil || e3 != nil || cfg < 0 || cfg >= len(c19Cfgs) || R < 2 || R > 64 {
@@ -1393,6 +1393,9 @@ func init() {
 		}
 		p := c19Generate(seed)
 		keep := c19ParseKeep(args[3], len(p.items))
+		if R < 8 { // a replay (corpus, shrinking) should not miss a difference that shows in some runs only
+			R = 8
+		}
 		res := c19Task(p, keep, cfg, R, false)
 		if res.invalid != "" { // the same failure in every run: no output anywhere, trivially the same
 			Stat("c19det-invalid-program")
